@@ -180,6 +180,10 @@ macro_rules! gens_cmd {
             }
             cap *= 2;
         }
+        // many parties with few generators each (party indices beyond one byte)
+        for (n, cap) in [(1usize, 128usize), (1, 256), (2, 512), (1, 1024)] {
+            combos.push((n, cap));
+        }
         if threads > 0 {
             // every construction on every thread gives the same generators: construct concurrently, compare encodings
             let reference: Vec<Vec<[u8; 32]>> = combos.iter().take(14).map(|(n, c)| $modname::gens_fingerprint(*n, *c)).collect();
@@ -277,6 +281,20 @@ fn main() {
                 writeln!(w, "{}", e).unwrap();
             }
             println!("{}", json!({"events": evs.len()}));
+        },
+        "codectrace" => {
+            let outp = arg(&args, "--out").expect("--out");
+            let seed: u64 = arg(&args, "--seed").map(|s| s.parse().unwrap()).unwrap_or(1);
+            let count: usize = arg(&args, "--count").map(|s| s.parse().unwrap()).unwrap_or(60);
+            let evs = match arg(&args, "--group").unwrap_or("rist") {
+                "fm" => fmx::codec_trace(seed, count),
+                _ => rist::codec_trace(seed, count),
+            };
+            let mut w = std::io::BufWriter::new(std::fs::File::create(outp).expect("trace file"));
+            for e in &evs {
+                writeln!(w, "{}", e).unwrap();
+            }
+            println!("{}", json!({"events": evs.len(), "accepted": evs.iter().filter(|e| e["accepted"] == true).count()}));
         },
         "noncekeys" => {
             // the harness's reference derivation must build exactly the keys the specification prints (MC_Nonce)
